@@ -340,8 +340,14 @@ func (c *confiner) provOfParam(p *ssa.Parameter) []prov {
 		caller := site.Parent()
 		if caller.Synthetic != "" {
 			// wrapper: attribute through the wrapper's own callers
+			// (a bound-method wrapper holds the receiver as a free variable: its parameters are shifted)
+			widx := idx - len(caller.FreeVars)
+			if widx < 0 {
+				out = append(out, prov{pvOther, caller})
+				continue
+			}
 			for _, s2 := range c.w.callers[caller] {
-				out = append(out, c.argProv(s2, idx, fn)...)
+				out = append(out, c.argProv(s2, widx, fn)...)
 			}
 			continue
 		}
